@@ -1,5 +1,6 @@
 import SigpyVerif.Model.Py
 import SigpyVerif.Gen.NufftFormulas
+import SigpyVerif.Gen.Interp
 /-
   C06 model (executable part): the integer / rational formulas of the nufft pipeline are the
   translator-generated `Gen.oversampLen`, `Gen.scaleFactor`, `Gen.scaleShift`, `Gen.scaleCoord`,
@@ -27,5 +28,17 @@ def constsF (shape : List Int) (oversamp : Rat) (width : Float) : Float × Float
   let nd := shape.length
   (Gen.nufftFwdDiv (α := Float) Float.sqrt prodN, Gen.nufftFwdWidthDiv (α := Float) Float.sqrt width nd,
    Gen.nufftAdjWidthDiv (α := Float) Float.sqrt width nd, Gen.nufftAdjMul (α := Float) Float.sqrt prodOs prodN)
+
+/-- what the generated 1-D interpolation reads for ONE point at image coordinate `c` on an axis of length `n`:
+    the oversampled length `L`, the scaled coordinate `κ = Gen.scaleCoord os n c`, and for every update of
+    `Gen.interp1` (one batch item, one point, kernel `K = id` so that the weight slot carries the kernel ARGUMENT)
+    the wrapped grid index and the kernel argument `(i - κ)/(W/2)`.  This is the data of `kernelSum`
+    (Props/C06Nudft.lean): `S(κ, ν) = (1/W) Σ wt(arg) · exp(-2πi · arg·(W/2) · ν / L)`. -/
+def kernelArgs (os : Rat) (n : Int) (c W : Rat) : Int × Rat × List (Int × Rat) :=
+  let L := Gen.oversampLen os n
+  let κ := Gen.scaleCoord os n c
+  let E := Gen.interp1 (fun u _ => u) (fun _ => 1) (fun k => if k = 0 then 1 else L) (fun _ => 1)
+    (fun _ _ => κ) (fun _ => W) (fun _ => 0)
+  (L, κ, E.map fun u => (u.2.1.getD 1 0, u.2.2))
 
 end SigpyVerif.C06
